@@ -59,6 +59,10 @@ func validateCompare(e *Expression) (err error) {
 		return errors.New("COMPARE validation: left value must be a literal expression")
 	}
 
+	if !isLiteralExpr(e.Right) {
+		return errors.New("COMPARE validation: right value must be a literal expression")
+	}
+
 	return nil
 }
 
